@@ -129,6 +129,12 @@ func (n *OneToManyNode) forward(proc *process.Process) {
 			}
 		}
 	}
+
+	// The reader is closed: nobody is left to answer, whatever is still awaited downstream is moot.
+	for _, outWriter := range outWriters {
+		n.tracer.Drop(outWriter)
+	}
+	n.tracer.Drop(errWriter)
 }
 
 func (n *OneToManyNode) backward(index int) port.Listener {
